@@ -1,20 +1,14 @@
-// C13 — tlx::DAryHeap, arity 1..4 (see c13_dary_heap.hpp for the driver/oracles).
+// C13 — tlx::DAryHeap, arity 1 and 2 x {std::less, std::greater, table comparator}
+// (driver and oracles: c13_dary_heap.hpp).
 #include "c13_dary_heap.hpp"
 
 namespace c13 {
-void register_dary_a(std::vector<Config>& out, bool thorough) {
-    // cost = measured relative run time (balancing only)
-    add_dary<1, 0>(out, thorough, true, 1);
-    add_dary<1, 1>(out, thorough, true, 1);
-    add_dary<1, 2>(out, thorough, true, 2);
-    add_dary<2, 0>(out, thorough, true, 2);
-    add_dary<2, 1>(out, thorough, true, 2);
-    add_dary<2, 2>(out, thorough, true, 8);
-    add_dary<3, 0>(out, thorough, true, 3);
-    add_dary<3, 1>(out, thorough, true, 3);
-    add_dary<3, 2>(out, thorough, true, 12);
-    add_dary<4, 0>(out, thorough, true, 4);
-    add_dary<4, 1>(out, thorough, true, 4);
-    add_dary<4, 2>(out, thorough, true, 16);
+void register_dary_1(std::vector<Config>& out, bool thorough) {
+    add_dary<1, 0>(out, thorough, true);
+    add_dary<1, 1>(out, thorough, true);
+    add_dary<1, 2>(out, thorough, true);
+    add_dary<2, 0>(out, thorough, true);
+    add_dary<2, 1>(out, thorough, true);
+    add_dary<2, 2>(out, thorough, true);
 }
 }  // namespace c13
